@@ -350,15 +350,22 @@ async def precedence_case(case: Dict[str, Any]) -> List[Tuple[str, str]]:
         stub_kw["deadline"] = Deadline.from_timeout(5000.0)
     if c_dl:
         call_kw["deadline"] = Deadline.from_timeout(50.0)
+    form = case.get("form", "mapping-stub")
+    stub_pairs = [("x-level", "stub"), ("x-stub", "1")]
+    call_pairs = [("x-level", "call"), ("x-call", "1")]
+    if form == "pairs-repeated-key":
+        # metadata is a multi-map: a key may occur more than once, as a list of pairs
+        stub_pairs += [("x-multi", "a"), ("x-multi", "b"), ("x-bin-bin", b"\x00\x01")]
+        call_pairs += [("x-multi", "c"), ("x-multi", "d")]
     if s_md:
-        stub_kw["metadata"] = {"x-level": "stub", "x-stub": "1"}
+        stub_kw["metadata"] = dict(stub_pairs) if form == "mapping-stub" else list(stub_pairs)
     if c_md:
-        call_kw["metadata"] = [("x-level", "call"), ("x-call", "1")]
+        call_kw["metadata"] = list(call_pairs) if form == "mapping-stub" else (dict(call_pairs) if form == "mapping-call" else list(call_pairs))
     cf = ChannelFor([svc])
     async with cf as channel:
         async def on_recv(event):
             dl = event.deadline.time_remaining() if event.deadline is not None else None
-            seen.append(({k: v for k, v in event.metadata.items()}, dl))
+            seen.append((sorted((k, v) for k, v in event.metadata.items() if k.startswith("x-")), dl))
         listen(cf._server, RecvRequest, on_recv)
         stub = main.MainStub(channel, **stub_kw)
         reqs = req_alphabet(T, rk)[:1] * 2
@@ -372,8 +379,8 @@ async def precedence_case(case: Dict[str, Any]) -> List[Tuple[str, str]]:
     md, remaining = seen[0]
     eff_to = 100.0 if c_to else (10000.0 if s_to else None)
     eff_dl = 50.0 if c_dl else (5000.0 if s_dl else None)
-    want_md = {"x-level": "call", "x-call": "1"} if c_md else ({"x-level": "stub", "x-stub": "1"} if s_md else {})
-    got_md = {k: v for k, v in md.items() if k.startswith("x-")}
+    want_md = sorted(call_pairs) if c_md else (sorted(stub_pairs) if s_md else [])
+    got_md = md
     if got_md != want_md:
         out.append(("metadata-precedence", f"server saw {got_md!r}, expected {want_md!r} (cfg={case['cfg']})"))
     cands = [x for x in (eff_to, eff_dl) if x is not None]
@@ -455,6 +462,9 @@ def cases(tier: str) -> List[Dict[str, Any]]:
     for m in ("DoThing", "list_things", "SENDAll", "Get2Fa"):
         for cfg in itertools.product((0, 1), repeat=6):
             out.append({"kind": "precedence", "method": m, "cfg": list(cfg)})
+            if cfg[4] or cfg[5]:
+                for form in ("mapping-call", "pairs-repeated-key"):
+                    out.append({"kind": "precedence", "method": m, "cfg": list(cfg), "form": form})
     return out
 
 
@@ -477,7 +487,7 @@ def _shard(shard: int, nshards: int, tier: str) -> Tally:
             case = cs[i]
             t.inc("calls")
             t.mark("distinct", (case["kind"], case["method"], tuple(case.get("req_idx", ())), case.get("n_out"),
-                                case.get("outcome"), str(case.get("as_async")), tuple(case.get("cfg", ())), case.get("a")))
+                                case.get("outcome"), str(case.get("as_async")), tuple(case.get("cfg", ())), case.get("a"), case.get("form")))
             try:
                 fn = {"precedence": precedence_case, "root": root_case}.get(case["kind"], one_case)
                 fails = loop.run_until_complete(fn(case))
